@@ -147,7 +147,7 @@ fn mk_set<const N: usize>(h: &[u64; K]) -> (S, St<N>) {
     let mut s: S = HashSet::with_capacity_and_hasher(capreq(N), TabHasher { h: *h });
     let st = fill::<(Key, ()), _, N>(
         hv::raw_of_set(&mut s),
-        Spec { items: SYM, deleted: SYM, kind: InvKind::Full, h, distinct: true, id_is_slot: false, layout: None },
+        Spec { items: SYM, deleted: SYM, kind: InvKind::Full, h, distinct: true, id_is_slot: false, layout: None, concrete_tags: None },
     );
     (s, st)
 }
